@@ -9,6 +9,7 @@ import (
 	"os"
 	"runtime"
 	"strings"
+	"sync"
 	"syscall"
 	"time"
 
@@ -16,6 +17,7 @@ import (
 
 	"github.com/criyle/go-sandbox/container"
 	"github.com/criyle/go-sandbox/pkg/mount"
+	"github.com/criyle/go-sandbox/pkg/verifhook"
 	"github.com/criyle/go-sandbox/runner"
 	"github.com/criyle/go-sandbox/runner/ptrace"
 	"github.com/criyle/go-sandbox/runner/unshare"
@@ -322,6 +324,47 @@ func c12CtrMain(args []string) error {
 			s.env.Ping()
 			o.End = settle(s, o.Base)
 			s.close()
+		case "openloss":
+			// the transport is lost while an Open reply (carrying a descriptor) is queued for the caller:
+			// the reply has been received, then init is killed and the receive loop sees the end of the stream
+			// before the API goroutine looks at its channels (gate in front of recvReply)
+			one := func() error {
+				s, err := newSession(args[0], sessOpt{})
+				if err != nil {
+					return err
+				}
+				var once sync.Once
+				verifhook.SetGate("host.recvReply", func() {
+					once.Do(func() {
+						s.waitHostEvent(`"ev":"recvd","k":"batch"`, 5*time.Second)
+						syscall.Kill(s.initPid, syscall.SIGKILL)
+						s.waitHostEvent(`"ev":"recverr"`, 5*time.Second)
+					})
+				})
+				res, err := s.env.Open([]container.OpenCmd{{Path: "/w/f", Flag: os.O_CREATE | os.O_WRONLY, Perm: 0644}})
+				if err == nil {
+					for _, x := range res {
+						if x.File != nil {
+							x.File.Close()
+						}
+					}
+				}
+				s.close()
+				return nil
+			}
+			if err := one(); err != nil {
+				o.Setup = err.Error()
+				break
+			}
+			time.Sleep(50 * time.Millisecond)
+			o.Base = sample(nil)
+			for rep := 0; rep < c.Reps; rep++ {
+				if err := one(); err != nil {
+					o.Setup = err.Error()
+					break
+				}
+			}
+			o.End = settle(nil, o.Base)
 		case "build":
 			one := func() error {
 				s, err := newSession(args[0], sessOpt{})
